@@ -51,6 +51,8 @@ CONSTANTS
   CtxMayExpire,    \* BOOLEAN: ShutdownContext's ctx may expire
   ClientMayClose,  \* BOOLEAN: a client may close its connection at any time
   HandlerMayClose, \* BOOLEAN: a handler may call w.Close()
+  StartMayFail,    \* BOOLEAN: start calls that cannot succeed are made (no listener configured, unusable
+                   \* socket / address / Net): the failed-start paths of ActivateAndServe / ListenAndServe
   SeqRestart,      \* BOOLEAN: a start call is made only while no other call of the server is in progress
   Bug,             \* "none", or the name of a deliberately broken variant (sanity checks)
   TrackAct         \* BOOLEAN: record the label of the last action in `act'
@@ -63,12 +65,12 @@ Lsn == IF Mode = "tcp" THEN 1..NLsn ELSE {}
 
 VARIABLES
   \* ---- fields of Server
-  started, lock, gen, closed, conns, lsnField,
+  started, lock, gen, closed, conns, lsnField, cfgBad,
   \* ---- transports
   lsnOpen, pend,          \* tcp listeners: open?, accept queue
   pcOpen, pcDL, pin,      \* the packet conn: open?, read deadline, packets waiting
   \* ---- starter / serve loop p
-  spc, sgen, sres, wg, scur, serr, slsn,
+  spc, sgen, sres, wg, scur, serr, slsn, sbad,
   \* ---- connection worker c
   wpc, wown, dl, copen, hrep, hclosed,
   \* ---- packet worker k
@@ -80,9 +82,9 @@ VARIABLES
   \* ---- history
   replyLost, crashed, act
 
-fields  == <<started, lock, gen, closed, conns, lsnField>>
+fields  == <<started, lock, gen, closed, conns, lsnField, cfgBad>>
 transp  == <<lsnOpen, pend, pcOpen, pcDL, pin>>
-svars   == <<spc, sgen, sres, wg, scur, serr, slsn>>
+svars   == <<spc, sgen, sres, wg, scur, serr, slsn, sbad>>
 wvars   == <<wpc, wown, dl, copen, hrep, hclosed>>
 kvars   == <<kpc, kown, nread>>
 shvars  == <<shpc, shres, shgen, capt, kick, shseen>>
@@ -99,10 +101,12 @@ Min(S) == CHOOSE x \in S : \A y \in S : x <= y
 Init ==
   /\ started = FALSE /\ lock = NoLock /\ gen = 0 /\ closed = {} /\ conns = {}
   /\ lsnField = IF Mode = "tcp" THEN 1 ELSE 0      \* the harness assigned listener 1 before the first call
+  /\ cfgBad = FALSE
   /\ lsnOpen = [l \in Lsn |-> TRUE] /\ pend = [l \in Lsn |-> {}]
   /\ pcOpen = TRUE /\ pcDL = "none" /\ pin = 0
   /\ spc = [p \in P |-> "idle"] /\ sgen = [p \in P |-> 0] /\ sres = [p \in P |-> "-"]
   /\ wg = [p \in P |-> 0] /\ scur = [p \in P |-> 0] /\ serr = [p \in P |-> "-"] /\ slsn = [p \in P |-> 0]
+  /\ sbad = [p \in P |-> FALSE]
   /\ wpc = [c \in C |-> "none"] /\ wown = [c \in C |-> 0] /\ dl = [c \in C |-> "none"]
   /\ copen = [c \in C |-> TRUE] /\ hrep = [c \in C |-> FALSE] /\ hclosed = [c \in C |-> FALSE]
   /\ kpc = [k \in K |-> "none"] /\ kown = [k \in K |-> 0] /\ nread = 0
@@ -114,22 +118,34 @@ Init ==
 -----------------------------------------------------------------------------
 (* Starter: ActivateAndServe / ListenAndServe, server.go 309-398             *)
 
-StLock(p) ==                      \* srv.lock.Lock(); defer unlock()
-  /\ spc[p] = "idle" /\ Free
+StLock(p, bad) ==                 \* srv.lock.Lock(); defer unlock()
+  /\ spc[p] = "idle" /\ Free         \* bad: a call that cannot succeed whatever the configuration
+  /\ (bad => StartMayFail)           \* (ListenAndServe with an unsupported Net / an unusable address)
   /\ (SeqRestart => /\ \A q \in P : spc[q] \in {"idle", "returned"}
                     /\ \A h \in H : shpc[h] \in {"idle", "returned"})
   /\ lock' = <<"s", p>>
   /\ spc' = [spc EXCEPT ![p] = "locked"]
-  /\ UNCHANGED <<started, gen, closed, conns, lsnField, transp, sgen, sres, wg, scur, serr, slsn, wvars, kvars, shvars, cvars, hist>>
-  /\ L(<<"StLock", p>>)
+  /\ sbad' = [sbad EXCEPT ![p] = bad]
+  /\ UNCHANGED <<started, gen, closed, conns, lsnField, cfgBad, transp, sgen, sres, wg, scur, serr, slsn, sbad, wvars, kvars, shvars, cvars, hist>>
+  /\ L(<<"StLock", p, bad>>)
 
-StBody(p) ==                      \* if srv.started {return err}; srv.init(); srv.started = true; unlock()
+StBody(p) ==                      \* if srv.started {return err}; srv.init(); <checks>; srv.started = true; unlock()
   /\ spc[p] = "locked"
   /\ IF started /\ Bug # "no_started_check"
      THEN /\ spc' = [spc EXCEPT ![p] = "err"]
           /\ sres' = [sres EXCEPT ![p] = "already"]
-          /\ UNCHANGED <<started, lock, gen, conns, sgen, wg, slsn>>
+          /\ UNCHANGED <<started, lock, gen, conns, sgen, wg, slsn, sbad>>
           /\ L(<<"StRefused", p>>)
+     ELSE IF cfgBad \/ sbad[p]
+     THEN \* "bad listeners", setUDPSocketOptions / listen failure, "bad network": init() has already run,
+          \* started is NOT set, the deferred unlock releases the lock (StErrReturn)
+          /\ gen' = gen + 1
+          /\ conns' = {}
+          /\ started' = (Bug = "started_early")
+          /\ spc' = [spc EXCEPT ![p] = "err"]
+          /\ sres' = [sres EXCEPT ![p] = "fail"]
+          /\ UNCHANGED <<lock, sgen, wg, slsn, sbad>>
+          /\ L(<<"StFailed", p>>)
      ELSE /\ started' = TRUE
           /\ gen' = gen + 1                       \* init(): a new srv.shutdown ...
           /\ conns' = {}                          \* ... and a new srv.conns
@@ -140,13 +156,13 @@ StBody(p) ==                      \* if srv.started {return err}; srv.init(); sr
           /\ spc' = [spc EXCEPT ![p] = "top"]
           /\ UNCHANGED sres
           /\ L(<<"StStarted", p>>)
-  /\ UNCHANGED <<closed, lsnField, transp, scur, serr, wvars, kvars, shvars, cvars, hist>>
+  /\ UNCHANGED <<closed, lsnField, cfgBad, transp, scur, serr, sbad, wvars, kvars, shvars, cvars, hist>>
 
 StErrReturn(p) ==                 \* the deferred unlock() on the error path
   /\ spc[p] = "err"
   /\ lock' = NoLock
   /\ spc' = [spc EXCEPT ![p] = "returned"]
-  /\ UNCHANGED <<started, gen, closed, conns, lsnField, transp, sgen, sres, wg, scur, serr, slsn, wvars, kvars, shvars, cvars, hist>>
+  /\ UNCHANGED <<started, gen, closed, conns, lsnField, cfgBad, transp, sgen, sres, wg, scur, serr, slsn, sbad, wvars, kvars, shvars, cvars, hist>>
   /\ L(<<"StErrReturn", p>>)
 
 -----------------------------------------------------------------------------
@@ -157,7 +173,7 @@ SCheck(p) ==                      \* for srv.isStarted()
   /\ IF started
      THEN spc' = [spc EXCEPT ![p] = IF Mode = "tcp" THEN "accept" ELSE "rdl"] /\ UNCHANGED sres
      ELSE spc' = [spc EXCEPT ![p] = "defer"] /\ sres' = [sres EXCEPT ![p] = "nil"]
-  /\ UNCHANGED <<fields, transp, sgen, wg, scur, serr, slsn, wvars, kvars, shvars, cvars, hist>>
+  /\ UNCHANGED <<fields, transp, sgen, wg, scur, serr, slsn, sbad, wvars, kvars, shvars, cvars, hist>>
   /\ L(<<"SCheck", p, started>>)
 
 SAcceptOk(p) ==                   \* l.Accept() returns a connection
@@ -168,14 +184,14 @@ SAcceptOk(p) ==                   \* l.Accept() returns a connection
        /\ scur' = [scur EXCEPT ![p] = c]
        /\ L(<<"SAcceptOk", p, c>>)
   /\ spc' = [spc EXCEPT ![p] = "got"]
-  /\ UNCHANGED <<fields, lsnOpen, pcOpen, pcDL, pin, sgen, sres, wg, serr, slsn, wvars, kvars, shvars, cvars, hist>>
+  /\ UNCHANGED <<fields, lsnOpen, pcOpen, pcDL, pin, sgen, sres, wg, serr, slsn, sbad, wvars, kvars, shvars, cvars, hist>>
 
 SAcceptErr(p) ==                  \* l.Accept() fails: the listener is closed
   /\ Mode = "tcp" /\ spc[p] = "accept"
   /\ ~lsnOpen[slsn[p]]
   /\ spc' = [spc EXCEPT ![p] = "goterr"]
   /\ serr' = [serr EXCEPT ![p] = "closed"]
-  /\ UNCHANGED <<fields, transp, sgen, sres, wg, scur, slsn, wvars, kvars, shvars, cvars, hist>>
+  /\ UNCHANGED <<fields, transp, sgen, sres, wg, scur, slsn, sbad, wvars, kvars, shvars, cvars, hist>>
   /\ L(<<"SAcceptErr", p>>)
 
 SErrCheck(p) ==                   \* if !srv.isStarted() {return nil}; Temporary() -> continue; return err
@@ -186,7 +202,7 @@ SErrCheck(p) ==                   \* if !srv.isStarted() {return nil}; Temporary
           THEN spc' = [spc EXCEPT ![p] = "top"] /\ UNCHANGED sres
           ELSE spc' = [spc EXCEPT ![p] = "defer"] /\ sres' = [sres EXCEPT ![p] = "err"]
   /\ serr' = [serr EXCEPT ![p] = "-"]
-  /\ UNCHANGED <<fields, transp, sgen, wg, scur, slsn, wvars, kvars, shvars, cvars, hist>>
+  /\ UNCHANGED <<fields, transp, sgen, wg, scur, slsn, sbad, wvars, kvars, shvars, cvars, hist>>
   /\ L(<<"SErrCheck", p, started>>)
 
 SRegister(p) ==                   \* lock; conns[rw] = {}; unlock; wg.Add(1); go serveTCPConn
@@ -199,7 +215,7 @@ SRegister(p) ==                   \* lock; conns[rw] = {}; unlock; wg.Add(1); go
   /\ wg' = [wg EXCEPT ![p] = @ + 1]
   /\ scur' = [scur EXCEPT ![p] = 0]
   /\ spc' = [spc EXCEPT ![p] = "top"]
-  /\ UNCHANGED <<started, lock, gen, closed, lsnField, transp, sgen, sres, serr, slsn, dl, copen, hrep, hclosed, kvars, shvars, cvars, hist>>
+  /\ UNCHANGED <<started, lock, gen, closed, lsnField, cfgBad, transp, sgen, sres, serr, slsn, sbad, dl, copen, hrep, hclosed, kvars, shvars, cvars, hist>>
 
 \* broken variant "reg_after_spawn": the worker is spawned first, the connection registered afterwards
 SSpawnFirst(p) ==
@@ -210,20 +226,20 @@ SSpawnFirst(p) ==
        /\ L(<<"SSpawnFirst", p, c>>)
   /\ wg' = [wg EXCEPT ![p] = @ + 1]
   /\ spc' = [spc EXCEPT ![p] = "got2"]
-  /\ UNCHANGED <<fields, transp, sgen, sres, scur, serr, slsn, dl, copen, hrep, hclosed, kvars, shvars, cvars, hist>>
+  /\ UNCHANGED <<fields, transp, sgen, sres, scur, serr, slsn, sbad, dl, copen, hrep, hclosed, kvars, shvars, cvars, hist>>
 SRegLate(p) ==
   /\ spc[p] = "got2" /\ Free
   /\ conns' = conns \cup {scur[p]}
   /\ scur' = [scur EXCEPT ![p] = 0]
   /\ spc' = [spc EXCEPT ![p] = "top"]
-  /\ UNCHANGED <<started, lock, gen, closed, lsnField, transp, sgen, sres, wg, serr, slsn, wvars, kvars, shvars, cvars, hist>>
+  /\ UNCHANGED <<started, lock, gen, closed, lsnField, cfgBad, transp, sgen, sres, wg, serr, slsn, sbad, wvars, kvars, shvars, cvars, hist>>
   /\ L(<<"SRegLate", p>>)
 
 SDrain(p) ==                      \* defer: wg.Wait() returns
   /\ spc[p] = "defer"
   /\ (wg[p] = 0 \/ Bug = "close_before_wait")
   /\ spc' = [spc EXCEPT ![p] = "drained"]
-  /\ UNCHANGED <<fields, transp, sgen, sres, wg, scur, serr, slsn, wvars, kvars, shvars, cvars, hist>>
+  /\ UNCHANGED <<fields, transp, sgen, sres, wg, scur, serr, slsn, sbad, wvars, kvars, shvars, cvars, hist>>
   /\ L(<<"SDrain", p>>)
 
 SCloseChan(p) ==                  \* defer: close(srv.shutdown) -- the field as it is NOW
@@ -235,7 +251,7 @@ SCloseChan(p) ==                  \* defer: close(srv.shutdown) -- the field as 
      ELSE /\ closed' = closed \cup {gen}
           /\ UNCHANGED <<crashed, sres>>
   /\ spc' = [spc EXCEPT ![p] = "closed"]
-  /\ UNCHANGED <<started, lock, gen, conns, lsnField, transp, sgen, wg, scur, serr, slsn, wvars, kvars, shvars, cvars, replyLost>>
+  /\ UNCHANGED <<started, lock, gen, conns, lsnField, cfgBad, transp, sgen, wg, scur, serr, slsn, sbad, wvars, kvars, shvars, cvars, replyLost>>
   /\ L(<<"SCloseChan", p, gen>>)
 
 SReturn(p) ==                     \* defer l.Close(); deferred unlock() (a no-op: once); the serve call returns
@@ -248,7 +264,7 @@ SReturn(p) ==                     \* defer l.Close(); deferred unlock() (a no-op
                       ELSE lock' = NoLock /\ UNCHANGED crashed
      ELSE UNCHANGED <<lock, crashed>>
   /\ spc' = [spc EXCEPT ![p] = "returned"]
-  /\ UNCHANGED <<started, gen, closed, conns, lsnField, pend, pcDL, pin, sgen, sres, wg, scur, serr, slsn, wvars, kvars, shvars, cvars, replyLost>>
+  /\ UNCHANGED <<started, gen, closed, conns, lsnField, cfgBad, pend, pcDL, pin, sgen, sres, wg, scur, serr, slsn, sbad, wvars, kvars, shvars, cvars, replyLost>>
   /\ L(<<"SReturn", p, sres[p]>>)
 
 \* ---- PacketConn / UDP serve loop
@@ -256,7 +272,7 @@ URdl(p) ==                        \* readPacketConn/readUDP: RLock; if started {
   /\ Mode = "pc" /\ spc[p] = "rdl" /\ Free
   /\ pcDL' = IF started \/ Bug = "dl_nocheck" THEN "future" ELSE pcDL
   /\ spc' = [spc EXCEPT ![p] = "read"]
-  /\ UNCHANGED <<fields, lsnOpen, pend, pcOpen, pin, sgen, sres, wg, scur, serr, slsn, wvars, kvars, shvars, cvars, hist>>
+  /\ UNCHANGED <<fields, lsnOpen, pend, pcOpen, pin, sgen, sres, wg, scur, serr, slsn, sbad, wvars, kvars, shvars, cvars, hist>>
   /\ L(<<"URdl", p, started>>)
 
 UReadOk(p) ==                     \* ReadFrom returns a packet
@@ -266,7 +282,7 @@ UReadOk(p) ==                     \* ReadFrom returns a packet
   /\ nread' = nread + 1
   /\ scur' = [scur EXCEPT ![p] = nread + 1]
   /\ spc' = [spc EXCEPT ![p] = "got"]
-  /\ UNCHANGED <<fields, lsnOpen, pend, pcOpen, pcDL, sgen, sres, wg, serr, slsn, wvars, kpc, kown, shvars, cvars, hist>>
+  /\ UNCHANGED <<fields, lsnOpen, pend, pcOpen, pcDL, sgen, sres, wg, serr, slsn, sbad, wvars, kpc, kown, shvars, cvars, hist>>
   /\ L(<<"UReadOk", p, nread + 1>>)
 
 UReadErr(p) ==                    \* ReadFrom fails: deadline in the past (Temporary) or conn closed
@@ -274,7 +290,7 @@ UReadErr(p) ==                    \* ReadFrom fails: deadline in the past (Tempo
   /\ \/ ~pcOpen /\ serr' = [serr EXCEPT ![p] = "closed"]
      \/ pcOpen /\ pcDL = "past" /\ serr' = [serr EXCEPT ![p] = "timeout"]
   /\ spc' = [spc EXCEPT ![p] = "goterr"]
-  /\ UNCHANGED <<fields, transp, sgen, sres, wg, scur, slsn, wvars, kvars, shvars, cvars, hist>>
+  /\ UNCHANGED <<fields, transp, sgen, sres, wg, scur, slsn, sbad, wvars, kvars, shvars, cvars, hist>>
   /\ L(<<"UReadErr", p, serr'[p]>>)
 
 USpawn(p) ==                      \* wg.Add(1); go serveUDPPacket
@@ -286,7 +302,7 @@ USpawn(p) ==                      \* wg.Add(1); go serveUDPPacket
   /\ wg' = [wg EXCEPT ![p] = @ + 1]
   /\ scur' = [scur EXCEPT ![p] = 0]
   /\ spc' = [spc EXCEPT ![p] = "top"]
-  /\ UNCHANGED <<fields, transp, sgen, sres, serr, slsn, wvars, nread, shvars, cvars, hist>>
+  /\ UNCHANGED <<fields, transp, sgen, sres, serr, slsn, sbad, wvars, nread, shvars, cvars, hist>>
 
 -----------------------------------------------------------------------------
 (* Connection worker: serveTCPConn 561-613, readTCP 686-708                  *)
@@ -369,7 +385,7 @@ WUnreg(c) ==                      \* lock; delete(srv.conns, rw) -- the CURRENT 
   /\ conns' = conns \ {c}
   /\ wg' = [wg EXCEPT ![wown[c]] = @ - 1]
   /\ wpc' = [wpc EXCEPT ![c] = "done"]
-  /\ UNCHANGED <<started, lock, gen, closed, lsnField, transp, spc, sgen, sres, scur, serr, slsn, wown, dl, copen, hrep, hclosed, kvars, shvars, cvars, hist>>
+  /\ UNCHANGED <<started, lock, gen, closed, lsnField, cfgBad, transp, spc, sgen, sres, scur, serr, slsn, sbad, wown, dl, copen, hrep, hclosed, kvars, shvars, cvars, hist>>
   /\ L(<<"WUnreg", c>>)
 
 WExit(c) ==                       \* the goroutine is gone
@@ -404,7 +420,7 @@ KExit(k) ==                       \* handler returns; wg.Done()
   /\ kpc[k] = "replied"
   /\ kpc' = [kpc EXCEPT ![k] = "done"]
   /\ wg' = [wg EXCEPT ![kown[k]] = @ - 1]
-  /\ UNCHANGED <<fields, transp, spc, sgen, sres, scur, serr, slsn, wvars, kown, nread, shvars, cvars, hist>>
+  /\ UNCHANGED <<fields, transp, spc, sgen, sres, scur, serr, slsn, sbad, wvars, kown, nread, shvars, cvars, hist>>
   /\ L(<<"KExit", k>>)
 
 KGone(k) ==
@@ -433,7 +449,7 @@ ShBegin(h) ==                     \* Lock; if !started {Unlock; return err}; sta
           /\ shpc' = [shpc EXCEPT ![h] = "closing"]
           /\ UNCHANGED shres
           /\ L(<<"ShBegin", h>>)
-  /\ UNCHANGED <<gen, closed, conns, lsnField, transp, svars, wvars, kvars, capt, cvars, hist>>
+  /\ UNCHANGED <<gen, closed, conns, lsnField, cfgBad, transp, svars, wvars, kvars, capt, cvars, hist>>
 
 ShCloseL(h) ==                    \* PacketConn.SetReadDeadline(aLongTimeAgo) / Listener.Close(), lock held
   /\ shpc[h] = "closing"
@@ -460,7 +476,7 @@ ShUnlock(h) ==
   /\ shpc[h] = "kick" /\ kick[h] = {}
   /\ lock' = NoLock
   /\ shpc' = [shpc EXCEPT ![h] = "select"]
-  /\ UNCHANGED <<started, gen, closed, conns, lsnField, transp, svars, wvars, kvars, shres, shgen, capt, kick, shseen, cvars, hist>>
+  /\ UNCHANGED <<started, gen, closed, conns, lsnField, cfgBad, transp, svars, wvars, kvars, shres, shgen, capt, kick, shseen, cvars, hist>>
   /\ L(<<"ShUnlock", h>>)
 
 ShCapture(h) ==                   \* select evaluates srv.shutdown: the field as it is NOW
@@ -529,11 +545,26 @@ HSetListener(l) ==                \* the harness assigns a fresh listener to srv
                     /\ \A h \in H : shpc[h] \in {"idle", "returned"})
   /\ gen > 0
   /\ lsnField' = l
-  /\ UNCHANGED <<started, lock, gen, closed, conns, transp, svars, wvars, kvars, shvars, cvars, hist>>
+  /\ UNCHANGED <<started, lock, gen, closed, conns, cfgBad, transp, svars, wvars, kvars, shvars, cvars, hist>>
   /\ L(<<"HSetListener", l>>)
 
+HCalm == /\ Free /\ \A q \in P : spc[q] \in {"idle", "returned"}      \* no call of the server is in progress
+         /\ \A h \in H : shpc[h] \in {"idle", "returned"}
+
+HBreak ==                         \* the caller leaves the server without a usable listener / packet conn
+  /\ StartMayFail /\ ~cfgBad /\ ~started /\ HCalm                            \* (nil, or a closed *net.UDPConn)
+  /\ cfgBad' = TRUE
+  /\ UNCHANGED <<started, lock, gen, closed, conns, lsnField, transp, svars, wvars, kvars, shvars, cvars, hist>>
+  /\ L(<<"HBreak">>)
+
+HFix ==                           \* ... and puts the usable one back
+  /\ cfgBad /\ HCalm
+  /\ cfgBad' = FALSE
+  /\ UNCHANGED <<started, lock, gen, closed, conns, lsnField, transp, svars, wvars, kvars, shvars, cvars, hist>>
+  /\ L(<<"HFix">>)
+
 -----------------------------------------------------------------------------
-StarterStep(p) == StLock(p) \/ StBody(p) \/ StErrReturn(p)
+StarterStep(p) == (\E bad \in BOOLEAN : StLock(p, bad)) \/ StBody(p) \/ StErrReturn(p)
 ServeStep(p)   == \/ SCheck(p) \/ SAcceptOk(p) \/ SAcceptErr(p) \/ SErrCheck(p) \/ SRegister(p)
                   \/ SSpawnFirst(p) \/ SRegLate(p) \/ SDrain(p) \/ SCloseChan(p) \/ SReturn(p)
                   \/ URdl(p) \/ UReadOk(p) \/ UReadErr(p) \/ USpawn(p)
@@ -545,7 +576,7 @@ WorkerFair(c)  == \/ WStart(c) \/ WLoop(c) \/ WSetDeadline(c) \/ WReadOk(c) \/ W
 PacketStep(k)  == KStart(k) \/ KEnter(k) \/ KReply(k) \/ KExit(k) \/ KGone(k)
 ShutStep(h)    == ShBegin(h) \/ ShCloseL(h) \/ (\E c \in C : ShKick(h, c)) \/ ShUnlock(h) \/ ShCapture(h) \/ ShWake(h) \/ ShClosePC(h)
 ClientStep     == (\E c \in C : (\E l \in Lsn : CConnect(c, l)) \/ CSend(c) \/ CClose(c)) \/ CSendPkt
-                  \/ (\E l \in Lsn : HSetListener(l))
+                  \/ (\E l \in Lsn : HSetListener(l)) \/ HBreak \/ HFix
 
 Next == \/ \E p \in P : StarterStep(p) \/ ServeStep(p)
         \/ \E c \in C : WorkerStep(c)
@@ -566,7 +597,7 @@ Spec == Init /\ [][Next]_vars /\ Fairness
 (* Properties                                                                *)
 
 TypeOK ==
-  /\ started \in BOOLEAN /\ gen \in 0..NStart /\ closed \subseteq 1..NStart /\ conns \subseteq C
+  /\ started \in BOOLEAN /\ cfgBad \in BOOLEAN /\ gen \in 0..NStart /\ closed \subseteq 1..NStart /\ conns \subseteq C
   /\ \A p \in P : spc[p] \in {"idle", "locked", "err", "top", "accept", "rdl", "read", "got", "got2", "goterr",
                               "defer", "drained", "closed", "returned"}
   /\ \A p \in P : wg[p] >= 0
@@ -612,7 +643,11 @@ ServeReturnsNil ==
 StartTwiceErrors ==
   [][ \A p \in P : spc[p] = "locked" /\ spc'[p] # "locked" =>
         IF started THEN spc'[p] = "err" /\ sres'[p] = "already" /\ UNCHANGED <<started, gen, conns>>
-                   ELSE spc'[p] = "top" /\ started' ]_vars
+                   ELSE (spc'[p] = "top" /\ started') \/ (spc'[p] = "err" /\ sres'[p] = "fail") ]_vars
+\* A start that returns an error leaves the server not started and the lock free; it does not block.
+FailedStartLeavesStopped ==
+  [][ \A p \in P : /\ (spc[p] = "locked" /\ spc'[p] = "err" /\ sres'[p] = "fail" => ~started')
+                    /\ (spc[p] = "err" /\ spc'[p] = "returned" => lock' = NoLock /\ (sres[p] = "fail" => ~started')) ]_vars
 OneLoopPerGeneration ==
   \A p, q \in P : p # q /\ sgen[p] # 0 /\ sgen[q] # 0 => sgen[p] # sgen[q]
 
